@@ -36,6 +36,7 @@ type orchOp struct {
 	To     int      `json:"to"` // emit: addressed party (0 = broadcast)
 	Label  string   `json:"label"`
 	Probe  string   `json:"probe"` // "" | "end": the last step of a probe call appended after the scenario proper
+	Map    map[string]int `json:"map"` // setmap: what Membership() answers from now on (node -> party)
 }
 
 type orchScenario struct {
@@ -72,6 +73,7 @@ type orchCall struct {
 }
 
 type orchRun struct {
+	membership map[tss.UniversalID]tss.PartyID // set by a setmap operation
 	sc      orchScenario
 	sch     *threshold.Scheme
 	mu      sync.Mutex
@@ -140,7 +142,14 @@ func newOrchRun(sc orchScenario) *orchRun {
 	party := threshold.LoudScheme(uint16(sc.Self), scripted.Logger{},
 		func(uint16) tss.KeyGenerator { return r.newBackend() },
 		func(uint16) tss.Signer { return r.newBackend() },
-		sc.Threshold, send, func() map[tss.UniversalID]tss.PartyID { return membership })
+		sc.Threshold, send, func() map[tss.UniversalID]tss.PartyID {
+			r.mu.Lock()
+			defer r.mu.Unlock()
+			if r.membership != nil {
+				return r.membership
+			}
+			return membership
+		})
 	r.sch = party.(*threshold.Scheme)
 	// the injected broadcast factory runs right before the continuation registers its handlers: a plan may pause there
 	origRBF := r.sch.RBF
@@ -280,6 +289,19 @@ func orchExec(ti int, sc orchScenario) []obj {
 		r.mu.Unlock()
 		got, res, panicked := "", "", ""
 		switch op.E {
+		case "setmap":
+			// the application's membership changes between two sessions (same nodes, other parties)
+			mm := map[tss.UniversalID]tss.PartyID{}
+			for k, v := range op.Map {
+				var n int
+				fmt.Sscan(k, &n)
+				mm[tss.UniversalID(n)] = tss.PartyID(v)
+			}
+			r.mu.Lock()
+			r.membership = mm
+			r.mu.Unlock()
+			lines = append(lines, obj{"t": ti, "e": "setmap", "membership": op.Map})
+			continue
 		case "call":
 			ctx, cancel := context.WithCancel(context.Background())
 			c := &orchCall{id: op.C, kind: op.Kind, topic: op.Topic, plan: op.Plan, cancel: cancel,
